@@ -208,3 +208,46 @@ func VerifC28PolicyChange() {
 	zz.Assert(!q2.Allowed, "a second query in the same hour was admitted although the token's policy now allows 1 per hour")
 	zz.Reach("end")
 }
+
+// VerifC28ConcurrentFirst: two requests of a token that has no limiter or tracker yet (after
+// start-up, or after DeletePolicy dropped them) arrive concurrently, every interleaving of
+// their lock operations (bounded preemptions). With a limit of 1 per minute and a quota of 1
+// per hour at one instant, at most one of them is admitted by the rate limit and at most one
+// by the quota - whichever goroutine creates the limiter, both must be counted on the same one.
+func VerifC28ConcurrentFirst() {
+	zz.ClockFixed(1700000000000000000)
+	zz.Unwind(70)
+	m := &Manager{
+		config:         &config.GovernanceConfig{DefaultRateLimitPerMin: 1, DefaultMaxQueriesPerHour: 1},
+		minuteLimiters: map[int64]*slidingWindowCounter{},
+		hourLimiters:   map[int64]*slidingWindowCounter{},
+		quotaTrackers:  map[int64]*quotaTracker{},
+		policies:       map[int64]*Policy{},
+	}
+	tok := int64(7)
+	var r1, r2 *EnforcementResult
+	var q1, q2 *EnforcementResult
+	useQuota := zz.Bool("quota_instead_of_rate_limit")
+	zz.Threads(
+		func() {
+			if useQuota {
+				q1 = m.CheckQuota(tok)
+			} else {
+				r1 = m.CheckRateLimit(tok)
+			}
+		},
+		func() {
+			if useQuota {
+				q2 = m.CheckQuota(tok)
+			} else {
+				r2 = m.CheckRateLimit(tok)
+			}
+		},
+	)
+	if useQuota {
+		zz.Assert(!(q1.Allowed && q2.Allowed), "two concurrent first queries were both admitted against an hourly quota of 1")
+	} else {
+		zz.Assert(!(r1.Allowed && r2.Allowed), "two concurrent first queries were both admitted against a rate limit of 1 per minute")
+	}
+	zz.Reach("end")
+}
